@@ -104,7 +104,8 @@ class Report:
 
     def check_floors(self):
         for rid, r in self.rules.items():
-            if r['instances'] < r['floor']:
+            # a rule that reports a violation is not vacuous: it may have stopped at the construct it could not accept
+            if r['instances'] < r['floor'] and not r['violations']:
                 raise AnalysisError(
                     '%s: rule %s matched %d obligation sites, fewer than the %d confirmed by hand '
                     '(vacuity guard): the anchors of this rule have moved' %
